@@ -51,6 +51,12 @@ CLAIMS = {
          "Lean 4 proof (ownership monotonicity over all schedules) + counterexample; E-conc correspondence; known finding", "DESIGN §6 C13"),
  "C14": ("Theorems for every schedule and any number of threads/calls: a draw is one atomic step; the values drawn along any interleaving are g, g+1, … (mod 2^64) in draw order, pairwise distinct below 2^64 draws, and depend only on the starting counter and the number of draws (reproducibility). Assumed: Uuid::new_v5 injective on distinct decimal strings. Tie: E-conc trace must show exactly one fetch_add(1) per draw; ids mapped back to counters via v5(ns,k) computed by the harness.",
          "Lean 4 proof by induction over schedules; E-conc + E-seq correspondence", "DESIGN §6 C14"),
+ "C16": ("Theorems: parse(show v) = v for EVERY value whose numeric fields fit their Rust types, for ids (UUID and ULID forms), u64/i64 numbers, side, time-in-force, peg reference, orders (all seven kinds incl. absent replenish amount), order updates (five kinds), transactions, statistics and snapshot summaries — by lemmas on the field splitter (`splitOn`/`parseFields` invert `record`) and on decimal/hex/Crockford digits. "
+         "Partial: for the list-carrying encodings (transaction list, match result, queue, level) the element codecs are proved, the bracket-aware list splitting is tied to the crate by correspondence only. Tie: E-codec — the crate's Display output compared byte for byte with the model's, the crate's parse compared with the model's parse and with the value.",
+         "Lean 4 proof (round-trip lemmas over List Char codecs) + byte-for-byte differential correspondence", "DESIGN §6 C16"),
+ "C18": ("Theorems: every text parser of the model is a total function (structural or fuel-bounded recursion accepted by Lean's kernel) returning a value or an error for EVERY List Char; every index the repaired MatchResult parser slices at is in range (C18_scan_in_range). The Rust-specific half — no panic at a non-character boundary, no arithmetic overflow in debug builds, no hang — is not expressible in the model and is tied by the run: "
+         "every from_str of the crate runs under catch_unwind with a watchdog on mutated encodings (incl. multi-byte characters) and the outcome class is compared with the model's. Defect D found by this check and repaired (fix: 8ee3412).",
+         "Lean 4 totality (kernel-accepted definitions + range lemma) + differential correspondence on mutated encodings with panic/hang detection", "DESIGN §6 C18"),
 }
 PENDING = {
 }
